@@ -92,7 +92,7 @@ def props_hash(prop):
 def audit_axioms(prop, theorems):
     """#print axioms on every property theorem; returns {thm: [axioms]} or {thm: None} when it does not exist."""
     if not theorems:
-        return {}
+        return {}, ""
     scratch = os.path.join(BUILD, f"audit_{prop}_{os.getpid()}.lean")
     os.makedirs(BUILD, exist_ok=True)
     with open(scratch, "w") as f:
